@@ -105,6 +105,7 @@ class Env:
         self.n = n_workers
         self.rdb_kwargs = rdb_kwargs or {}
         self._engines: list[Any] = []
+        self.sql_points: set[int] = set()
         self._paths: list[str] = []
         self.fctx: faultfs.Ctx | None = None
         self._redis: Any = None
@@ -131,6 +132,17 @@ class Env:
             **{**self.rdb_kwargs, **kw},
         )
         self._engines.append(s)
+        # remember at which yield points the workers talk to the database: the interleavings that
+        # matter on an RDB layout are those between SQL statements / commits, a small subset of
+        # the source-line yield points
+        import sqlalchemy
+
+        def mark(*a: Any, **k: Any) -> None:
+            if self.sched.active and self.sched.me() is not None:
+                self.sql_points.update((max(0, self.sched.steps - 1), self.sched.steps))
+
+        for ev in ("before_cursor_execute", "after_cursor_execute", "commit", "begin", "rollback"):
+            sqlalchemy.event.listen(s.engine, ev, mark)
         return s
 
     def new_storage(self) -> Any:
@@ -219,6 +231,8 @@ class Env:
         return self.new_storage()
 
     def __exit__(self, *a: Any) -> None:
+        if not self.sched.preempt:
+            LAST_SQL_POINTS[:] = sorted(self.sql_points)
         if self.fctx is not None:
             faultfs.uninstall()
         if self.kind.startswith("journal_redis"):
@@ -248,6 +262,20 @@ class Env:
                     os.unlink(self.path + suffix)
                 except OSError:
                     pass
+
+
+LAST_SQL_POINTS: list[int] = []  # yield points next to an SQL statement / commit, of the last unpreempted run
+
+
+def sql_switch_points(n_steps: int, n_workers: int, cap: int, salt: int = 0) -> list[dict[int, int]]:
+    """Single preemptions right before / right after every SQL statement and commit of the last
+    unpreempted run (at most `cap` of them, evenly thinned)."""
+    pts = [p for p in LAST_SQL_POINTS if 0 <= p < n_steps]
+    if len(pts) > cap:
+        stride = -(-len(pts) // cap)
+        pts = pts[salt % stride :: stride]
+    others = max(1, n_workers - 1)
+    return [{p: (i + salt) % others} for i, p in enumerate(pts)]
 
 
 def switch_points(n_steps: int, n_workers: int, limit: int, salt: int = 0) -> list[dict[int, int]]:
